@@ -481,8 +481,22 @@ def install_string_hooks(it):
     install_rx_hooks(it, [])
 
     def rx_sub(interp, args, kwargs):
+        from .model import FuncInfo
+        from .interp import LambdaVal, BoundMethod
+        from . import rx as rxmod
         rx, repl, subj = args[0], args[1], args[2]
+        if isinstance(repl, (FuncInfo, LambdaVal, BoundMethod)):
+            fn = repl
+            repl = lambda m: interp.call(fn, [m], {})       # a replacement function of the program, interpreted per match
         if isinstance(subj, Taint):
+            # a pattern whose every match is exactly one character (no look-around) rewrites the text character by
+            # character, like str.translate: the image of each character is computed
+            try:
+                one = rxmod.width(rx.pattern, rx.flags) == (1, 1) and '(?' not in rx.pattern.replace('(?:', '')
+            except Exception:
+                one = False
+            if one and not is_abstract(repl):
+                return subj.mapped(lambda i: rx.compiled().sub(repl, i))
             return subj.clone(imprecise=True, label=subj.label + ':re.sub')
         if is_abstract(subj) or is_abstract(repl):
             return Unknown('re.sub')
